@@ -328,6 +328,57 @@ static std::string msg_mrc(uint32_t i)
   return os.str();
 }
 
+// ---- divRoundUp over ALL pairs of a 16-bit / 8-bit type ---------------------------
+// For element types narrower than int the statement holds on the whole of a >= 0, b > 0 (integer promotion: a+b-1 is
+// evaluated in int), so no representability precondition applies and 2^32 (a,b) pairs enumerate the type completely.
+// bits = (a << 16) | b  (16-bit types), the 8-bit types are enumerated inside the 16-bit sweep's first 2^16 ordinals.
+static const char *const DIVRU_CLS[] = {"a==0", "a multiple of b", "remainder 1", "remainder b-1", "other remainder", "outside a>=0,b>0"};
+template <class T>
+static inline Res chk_divru_ab(long long a, long long b)
+{
+  if (a < 0 || b <= 0)
+    return {true, false, 5, 0.0};
+  const long long q = (long long)rk::divRoundUp<T>((T)a, (T)b);
+  const bool ok = q >= 0 && q * b >= a && (q == 0 || (q - 1) * b < a);
+  const long long rem = a % b;
+  return {ok, true, a == 0 ? 0 : rem == 0 ? 1 : rem == 1 ? 2 : rem == b - 1 ? 3 : 4, 0.0};
+}
+template <class T>
+static inline Res chk_divru16(uint32_t bits)
+{
+  return chk_divru_ab<T>((long long)(T)(uint16_t)(bits >> 16), (long long)(T)(uint16_t)(bits & 0xffffu));
+}
+template <class T8, class T>
+static inline Res chk_divru16_and8(uint32_t bits)
+{
+  if (bits < 0x10000u) {  // piggy-back: all pairs of the 8-bit type
+    const Res r8 = chk_divru_ab<T8>((long long)(T8)(uint8_t)(bits >> 8), (long long)(T8)(uint8_t)(bits & 0xffu));
+    if (!r8.ok)
+      return {false, true, r8.cls, 1.0};
+  }
+  return chk_divru16<T>(bits);
+}
+template <class T8, class T>
+static std::string msg_divru16(uint32_t bits)
+{
+  std::ostringstream os;
+  if (bits < 0x10000u) {
+    const long long a = (long long)(T8)(uint8_t)(bits >> 8), b = (long long)(T8)(uint8_t)(bits & 0xffu);
+    if (!chk_divru_ab<T8>(a, b).ok) {
+      os << C07_BIN << ": divRoundUp<" << (std::is_signed<T8>::value ? "int8_t" : "uint8_t") << ">(" << a << ", " << b << ") = " << (long long)rk::divRoundUp<T8>((T8)a, (T8)b)
+         << " is not the least q with q*b >= a";
+      return os.str();
+    }
+  }
+  const long long a = (long long)(T)(uint16_t)(bits >> 16), b = (long long)(T)(uint16_t)(bits & 0xffffu);
+  os << C07_BIN << ": divRoundUp<" << (std::is_signed<T>::value ? "int16_t" : "uint16_t") << ">(" << a << ", " << b << ") = ";
+  if (a >= 0 && b > 0)
+    os << (long long)rk::divRoundUp<T>((T)a, (T)b) << " is not the least q with q*b >= a";
+  else
+    os << "(outside the domain)";
+  return os.str();
+}
+
 // ------------------------------------------------------------------ parallel driver
 struct Acc
 {
@@ -534,6 +585,10 @@ static void register_properties()
   plain_sweep("deg2rad", FN(chk_deg2rad), FN(msg_deg2rad), D2R_CLS, 4, "relative error vs x*pi/180 (normal results)", {0x43340000u, 0x00000001u, 0x7f7fffffu, 0xff800000u});
   pack_sweep<PACK_LIN>("cvt_uint32");
   pack_sweep<PACK_SRGB>("srgb8_pack");
+  plain_sweep("divRoundUp_u16_u8_all_pairs", FN((chk_divru16_and8<uint8_t, uint16_t>)), FN((msg_divru16<uint8_t, uint16_t>)), DIVRU_CLS, 6, nullptr,
+      {(65000u << 16) | 1000u, (65535u << 16) | 1u, (65535u << 16) | 65535u, 1u});
+  plain_sweep("divRoundUp_i16_i8_all_pairs", FN((chk_divru16_and8<int8_t, int16_t>)), FN((msg_divru16<int8_t, int16_t>)), DIVRU_CLS, 6, nullptr,
+      {(30000u << 16) | 4096u, (32767u << 16) | 1u, (32767u << 16) | 32767u, 1u});
   plain_sweep("makeRandomColor", FN(chk_mrc), FN(msg_mrc), MRC_CLS, 4, "largest component returned", {0u, 1u, 0xffffffffu});
 }
 PBT_MAIN(C07_BIN)
